@@ -20,6 +20,15 @@ def scratch():
     global _scratch
     if _scratch is None:
         base = "/var/tmp"
+        # leftovers of runs that were killed before their atexit handler ran: remove what is older than 6 hours
+        try:
+            now = time.time()
+            for d in os.listdir(base):
+                p = os.path.join(base, d)
+                if d.startswith("dtverif.") and now - os.path.getmtime(p) > 6 * 3600:
+                    shutil.rmtree(p, ignore_errors=True)
+        except OSError:
+            pass
         _scratch = tempfile.mkdtemp(prefix="dtverif.", dir=base)
         import atexit
         atexit.register(lambda: shutil.rmtree(_scratch, ignore_errors=True))
